@@ -48,4 +48,8 @@ class CheckpointOnPaused(plumpy.ProcessListener):
 
     def on_process_paused(self, process):
         if PAUSED_HOOK[0] is not None:
-            PAUSED_HOOK[0](process)
+            PAUSED_HOOK[0](process, 'paused')
+
+    def on_process_played(self, process):
+        if PAUSED_HOOK[0] is not None:
+            PAUSED_HOOK[0](process, 'played')
